@@ -286,9 +286,26 @@ def run_property(pid, tier, only=None, jobs=None, write_evidence=True, cube_filt
   # by VERIF_SEED, and reports every cube it did not finish as inconclusive (never as success).
   budget = float(os.environ.get('VERIF_BUDGET_S', '') or (2400 if tier == 'thorough' else 0))
   deadline = t_start + budget if budget > 0 else None
-  if deadline is not None and tier == 'thorough':
+  if tier == 'thorough':
+    # A thorough run starts with the cubes of the quick tier (so that it never covers less than a quick run, whatever
+    # the budget) and continues with the thorough family in an order shuffled by VERIF_SEED.
     import random as _random
-    _random.Random(seed).shuffle(work)
+    if deadline is not None:
+      _random.Random(seed).shuffle(work)
+    try:
+      qmap = {o.name: o for o in hmod.obligations('quick', seed) if o.kind == 'crosshair'}
+    except Exception:  # pylint: disable=broad-except
+      qmap = {}
+    first = []
+    for ob in obligations:
+      if ob.kind == 'crosshair' and ob.name in qmap and (not only or only in ob.name):
+        have = {c.tag for c in ob.cubes}
+        extra = [Cube('quick:' + c.tag, list(c.pre), dict(c.fix or {}), c.est) for c in qmap[ob.name].cubes
+                 if not cube_filter or cube_filter in c.tag]
+        ob.cubes = list(ob.cubes) + extra
+        first += [(ob, c) for c in extra]
+    first.sort(key=lambda oc: -(oc[1].est or 0))
+    work = first + work
   for ob, cube in work:
     submit_cube(ob, cube)
 
